@@ -98,9 +98,9 @@ theorem buildEach_w (sl el : Nat) : ∀ (bps : List BP) (s : St) (js : List LIte
     exact ⟨e1.trans e2, JumpsOK.cons (hb b (by simp)) jo⟩
 
 /-- a piece of header jumps collected without touching the label counter -/
-theorem W.jumps {c : LCtx} (lb : Nat) {s s' : St} {hs : List LItem} (hst : StOK c s) (hsame : SameL s s') (h : JumpsOK hs) :
-    W c lb 0 [] s hs s' :=
-  W.plain lb hst hsame h.intIds h.usrIds h.root h.noCtx.ctxP
+theorem W.jumps {c : LCtx} {s s' : St} {hs : List LItem} (hst : StOK c s) (hsame : SameL s s') (h : JumpsOK hs) :
+    W c [] [] s hs s' :=
+  W.plain hst hsame h.intIds h.usrIds h.root h.noCtx.ctxP
 
 theorem genJump_w {l : Option Nat} {s : St} {j : LItem} {s' : St} (h : genJump l s = .ok (j, s')) :
     SameL s s' ∧ JumpsOK [j] := by
@@ -109,37 +109,36 @@ theorem genJump_w {l : Option Nat} {s : St} {j : LItem} {s' : St} (h : genJump l
 
 /-! ### `_process_block` -/
 
-theorem W.sameR {c : LCtx} {lb vl : Nat} {d : List String} {s s1 s2 : St} {x : List LItem} (h : W c lb vl d s x s1)
-    (hsame : SameL s1 s2) : W c lb vl d s x s2 :=
-  ⟨hsame.ok h.ok, h.ext.trans hsame.ext, by rw [hsame.1]; exact h.ig,
-   fun z hz => by simpa [namedIds, hsame.2] using h.fresh z hz, by rw [hsame.2]; exact h.usr, h.root, h.ctx⟩
+theorem W.sameR {c : LCtx} {r : List Nat} {d : List String} {s s1 s2 : St} {x : List LItem} (h : W c r d s x s1)
+    (hsame : SameL s1 s2) : W c r d s x s2 :=
+  ⟨hsame.ok h.ok, h.ext.trans hsame.ext, by rw [hsame.1]; exact h.lab,
+   fun z hz => by simpa [namedIds, hsame.2, hsame.1] using h.fresh z hz, by rw [hsame.2]; exact h.usr, h.root, h.ctx⟩
 
-theorem W.sameLft {c : LCtx} {lb vl : Nat} {d : List String} {s0 s s1 : St} {x : List LItem} (h : W c lb vl d s x s1)
-    (hsame : SameL s0 s) : W c lb vl d s0 x s1 :=
-  ⟨h.ok, hsame.ext.trans h.ext, by rw [← hsame.1]; exact h.ig, h.fresh, h.usr, h.root, h.ctx⟩
+theorem W.sameLft {c : LCtx} {r : List Nat} {d : List String} {s0 s s1 : St} {x : List LItem} (h : W c r d s x s1)
+    (hsame : SameL s0 s) : W c r d s0 x s1 :=
+  ⟨h.ok, hsame.ext.trans h.ext, by rw [← hsame.1]; exact h.lab, h.fresh, h.usr, h.root, h.ctx⟩
 
-/-- pieces glued with a freshly ticked label and jumps in between, any arrangement: bookkeeping helper.
-`x` collected from `s0` to `s`, then a label ticked. -/
-theorem W.then_tick {c : LCtx} {lb vl : Nat} {d : List String} {s0 s : St} {x : List LItem} (hs0 : StOK c s0) (hr : Rng c lb vl)
-    (h : W c lb vl d s0 x s) : W c lb vl d s0 (x ++ [.label (s.lbc + 1) false]) (s.tickedLbl 1) := by
-  have := W.append hs0 hr h (W.tick lb h.ok) ⟨Nat.le_refl _, Nat.le_refl _⟩ ⟨Nat.le_refl _, by omega⟩ (.inr (by omega))
+/-- `x` collected from `s0` to `s`, then a label ticked -/
+theorem W.then_tick {c : LCtx} {r : List Nat} {d : List String} {s0 s : St} {x : List LItem}
+    (h : W c r d s0 x s) : W c r d s0 (x ++ [.label (s.lbc + 1) false]) (s.tickedLbl 1) := by
+  have := W.append h (W.tick h.ok)
   simpa using this
 
-theorem W.then_jumps {c : LCtx} {lb vl : Nat} {d : List String} {s0 s s' : St} {x hs : List LItem} (hs0 : StOK c s0) (hr : Rng c lb vl)
-    (h : W c lb vl d s0 x s) (hsame : SameL s s') (hj : JumpsOK hs) : W c lb vl d s0 (x ++ hs) s' := by
-  have := W.append hs0 hr h (W.jumps lb h.ok hsame hj) ⟨Nat.le_refl _, Nat.le_refl _⟩ ⟨Nat.le_refl _, by omega⟩ (.inr (by omega))
+theorem W.then_jumps {c : LCtx} {r : List Nat} {d : List String} {s0 s s' : St} {x hs : List LItem}
+    (h : W c r d s0 x s) (hsame : SameL s s') (hj : JumpsOK hs) : W c r d s0 (x ++ hs) s' := by
+  have := W.append h (W.jumps h.ok hsame hj)
   simpa using this
 
 /-- `_process_block`: the block's items are a piece again, the header jumps are jumps -/
-theorem processBlock_w {c : LCtx} {lb vl : Nat} {d : List String} {hjbs : List BP} {cf ins : Bool} {ops : List LItem}
-    {s0 s : St} {blk : Blk} {s' : St} (hs0 : StOK c s0) (hr : Rng c lb vl) (hb : BPsOK hjbs) (hw : W c lb vl d s0 ops s)
+theorem processBlock_w {c : LCtx} {r : List Nat} {d : List String} {hjbs : List BP} {cf ins : Bool} {ops : List LItem}
+    {s0 s : St} {blk : Blk} {s' : St} (hb : BPsOK hjbs) (hw : W c r d s0 ops s)
     (h : processBlock hjbs cf ins ops s = .ok (blk, s')) :
-    W c lb vl d s0 blk.items s' ∧ JumpsOK blk.hdrs := by
+    W c r d s0 blk.items s' ∧ JumpsOK blk.hdrs := by
   simp only [processBlock, bind_ok, tickLbl_ok] at h
   obtain ⟨endL, s1, h1, h2⟩ := h
   simp only [Prod.mk.injEq] at h1
   obtain ⟨rfl, rfl⟩ := h1
-  have w1 := W.then_tick hs0 hr hw
+  have w1 := W.then_tick hw
   generalize shortcutOf hjbs cf ops = sc at h2
   match sc with
   | some none => simp [processBlockAt, fail_ok] at h2
@@ -173,8 +172,8 @@ theorem processBlock_w {c : LCtx} {lb vl : Nat} {d : List String} {hjbs : List B
         obtain ⟨rfl, rfl⟩ := h3
         exact ⟨[], by simp, JumpsOK.nil, SameL.refl _⟩
     obtain ⟨js, rfl, jjs, e2⟩ := hj
-    have w2 := W.then_jumps hs0 hr w1 e2 jjs
-    have w3 := (W.then_tick hs0 hr w2).sameR e5
+    have w2 := W.then_jumps w1 e2 jjs
+    have w3 := (W.then_tick w2).sameR e5
     refine ⟨w3.rearr (fun n => ?_) (fun n => ?_) ?_ ?_, jo⟩
     · simp only [intIds_append, intIds_cons_int, intIds_nil, List.count_append, jjs.intIds, List.count_nil, List.count_cons]
       omega
@@ -190,12 +189,12 @@ theorem processBlock_w {c : LCtx} {lb vl : Nat} {d : List String} {hjbs : List B
     · exact (((NoCtx.label _ _).ctxP.append hw.ctx).append jjs.noCtx.ctxP).append (NoCtx.label _ _).ctxP
 
 /-- `blockOf`: collect the sub-handlers, then `_process_block` -/
-theorem blockOf_w {c : LCtx} {lb vl : Nat} {d : List String} {hjbs : List BP} {cf ins : Bool} {stmts : M (List LItem)}
-    (hm : WM c lb vl d stmts) (hr : Rng c lb vl) (hb : BPsOK hjbs)
+theorem blockOf_w {c : LCtx} {r : List Nat} {d : List String} {hjbs : List BP} {cf ins : Bool} {stmts : M (List LItem)}
+    (hm : WM c r d stmts) (hb : BPsOK hjbs)
     {s : St} {b : Blk} {s' : St} (hs : StOK c s) (h : blockOf hjbs cf ins stmts s = .ok (b, s')) :
-    W c lb vl d s b.items s' ∧ JumpsOK b.hdrs := by
+    W c r d s b.items s' ∧ JumpsOK b.hdrs := by
   simp only [blockOf, bind_ok] at h
   obtain ⟨ops, s1, h1, h2⟩ := h
-  exact processBlock_w hs hr hb (hm _ _ _ hs h1) h2
+  exact processBlock_w hb (hm _ _ _ hs h1) h2
 
 end ESV.Comp
